@@ -1,6 +1,16 @@
 (** Evaluator glue for C09: replays a whole history on the model and compares
-    the projected observables after every step. *)
-From AGH Require Export Base.Run Model.Stats.
+    the projected observables after every step.
+
+    [CHist]: a sequential history of Model/Stats.v operations.  An observation
+    is either everything the harness reads in a quiescent moment ([Obs]) or
+    ONE answer of GET /control/stats taken while updates were running
+    ([ObsResp]: the harness puts it at the point of the linearised history
+    that the answer's num_dns_queries names; every other counter, series and
+    top list of the same answer must then be the model's at that point).
+    [CShut]: a history in which Close and New are steps of their own
+    (Model/StatsShutdown.v), with the hourly flush and updates where they ran
+    relative to Close. *)
+From AGH Require Export Base.Run Model.Stats Model.StatsShutdown.
 Local Open Scope Z_scope.
 
 Definition mkE (r d c : Z) (ups : list (Z * bool)) (us : Z) : entry :=
@@ -26,10 +36,19 @@ Inductive obs :=
       (avg : Z)                         (* avg_processing_time in whole microseconds *)
       (info : Z)                        (* GET /control/stats_info: interval *)
       (tcip : list Z)                   (* sorted keys of TopClientsIP(1000) *)
-  | ObsSkip.                            (* nothing read after this step (inside a burst of updates,
+  | ObsSkip                             (* nothing read after this step (inside a burst of updates,
                                            between the steps of a reset) *)
+  | ObsResp                             (* one answer of GET /control/stats, nothing else *)
+      (totals : list Z)                 (* num_dns_queries, num_blocked_filtering, num_replaced_safebrowsing,
+                                           .._safesearch, .._parental *)
+      (days : bool) (len : Z)
+      (ser : list (list (Z * Z)))
+      (tops : list (list (Z * Z)))
+      (avg : Z).
 
-Inductive case := CHist (id0 ms0 : Z) (en0 : bool) (steps : list (op * obs)).
+Inductive case :=
+  | CHist (id0 ms0 : Z) (en0 : bool) (steps : list (op * obs))
+  | CShut (id0 ms0 : Z) (en0 : bool) (steps : list (xop * obs)).
 
 Fixpoint sparse_from (i : Z) (l : list Z) : list (Z * Z) :=
   match l with
@@ -76,8 +95,12 @@ Definition eqb_obs (a b : obs) : bool :=
       eqb_list Z.eqb t1 t2 && Bool.eqb d1 d2 && (n1 =? n2) &&
       eqb_list (eqb_list eqb_zz) s1 s2 && eqb_list (eqb_list eqb_zz) o1 (map stable_part o2) &&
       eqb_list eqb_zz u1 u2 && (a1 =? a2) && (i1 =? i2) && eqb_list Z.eqb k1 k2
+  | Obs _ _ _ _ _ t1 d1 n1 s1 o1 _ a1 _ _, ObsResp t2 d2 n2 s2 o2 a2 =>
+      eqb_list Z.eqb (match t1 with a :: _ :: r => a :: r | _ => t1 end) t2 &&
+      Bool.eqb d1 d2 && (n1 =? n2) &&
+      eqb_list (eqb_list eqb_zz) s1 s2 && eqb_list (eqb_list eqb_zz) o1 (map stable_part o2) && (a1 =? a2)
   | _, ObsSkip => true
-  | ObsSkip, _ => false
+  | _, _ => false
   end.
 
 Fixpoint replay (s : state) (steps : list (op * obs)) : bool :=
@@ -91,8 +114,25 @@ Fixpoint replay (s : state) (steps : list (op * obs)) : bool :=
       end
   end.
 
+Definition xpanics (s : state) (x : xop) : bool :=
+  match x with XOp o => panics s o | _ => false end.
+
+Fixpoint xreplay (s : state) (steps : list (xop * obs)) : bool :=
+  match steps with
+  | [] => true
+  | (x, ob) :: rest =>
+      let s' := xstep s x in
+      match ob with
+      | ObsSkip => xreplay s' rest
+      | _ => if eqb_obs (observe (xpanics s x) s') ob then xreplay s' rest else false
+      end
+  end.
+
 Definition case_ok (c : case) : bool :=
-  match c with CHist id0 ms0 en0 steps => replay (init id0 ms0 en0) steps end.
+  match c with
+  | CHist id0 ms0 en0 steps => replay (init id0 ms0 en0) steps
+  | CShut id0 ms0 en0 steps => xreplay (init id0 ms0 en0) steps
+  end.
 
 Definition mismatches := Base.Run.mismatches case_ok.
 
@@ -102,5 +142,14 @@ Fixpoint trace (s : state) (steps : list (op * obs)) : list obs :=
   | (o, _) :: rest => let s' := step s o in observe (panics s o) s' :: trace s' rest
   end.
 
+Fixpoint xtrace (s : state) (steps : list (xop * obs)) : list obs :=
+  match steps with
+  | [] => []
+  | (x, _) :: rest => let s' := xstep s x in observe (xpanics s x) s' :: xtrace s' rest
+  end.
+
 Definition explain (c : case) : list obs :=
-  match c with CHist id0 ms0 en0 steps => trace (init id0 ms0 en0) steps end.
+  match c with
+  | CHist id0 ms0 en0 steps => trace (init id0 ms0 en0) steps
+  | CShut id0 ms0 en0 steps => xtrace (init id0 ms0 en0) steps
+  end.
